@@ -230,7 +230,9 @@ impl<'a> StateMachine<'a> {
                     self.config.max_line_length,
                 );
                 self.raw_line = raw_line[..truncated_len].to_string();
-                self.line.clone_from(&self.raw_line);
+                // As for valid UTF-8: handlers rely on `line` being `raw_line` without its
+                // escape sequences.
+                self.line = ansi::strip_ansi_codes(&self.raw_line);
             }
         }
     }
